@@ -133,11 +133,14 @@ def decomposeRNS (qsP : List Nat) (nbPi i : Nat) (c : RPoly) : RPoly :=
     let grows := (c.c.drop start).take (ed - start)
     ofInts qsOut ((List.range n).map fun t => centerHalf gq (colOf grows t))
 
+/-- digit `j` in base `2^w` of `x`, as `ring.MaskVec` computes it: `(x >> (j·w)) & (2^w − 1)` -/
+def bitDigit (w j x : Nat) : Nat := (x >>> (j * w)) &&& (2 ^ w - 1)
+
 /-- `ring.MaskVec(c[i], j·w, 2^w − 1, cw)`: digit `j` in base `2^w` of the residues modulo `q_i`, used
     as the same small non-negative polynomial on every row of `Q_ℓ P` -/
 def decomposeBits (qsP : List Nat) (w i j : Nat) (c : RPoly) : RPoly :=
   let row := c.c.getD i []
-  ofInts (c.qs ++ qsP) (row.map fun x => (((x >>> (j * w)) &&& (2 ^ w - 1) : Nat) : Int))
+  ofInts (c.qs ++ qsP) (row.map fun x => ((bitDigit w j x : Nat) : Int))
 
 /-- the digit matrix consumed by `GadgetProductLazy` for a key with `nP` special primes, base `2^w`
     and row lengths `nJ` (the KEY's `BaseTwoDecompositionVectorSize`): dispatch exactly as coded —
